@@ -416,6 +416,13 @@ def translate() -> tuple[str, dict]:
                 remove_guards = _remove_ent_guards(fn)
             _key_dict_escapes(qual, fn, rel, key_escapes)
             _entity_list_writers(qual, fn, rel, ent_list_writers, spawn_writers)
+            # round 4: `<x>.spawn = <local>` as a top-level statement of the function makes `<x>.spawn` another name of that
+            # local for every site further down (the entity that is filed may be written either way)
+            spawn_alias: dict[str, tuple[str, int]] = {}
+            for st in getattr(fn, 'body', []):
+                if isinstance(st, ast.Assign) and len(st.targets) == 1 and isinstance(st.targets[0], ast.Attribute) \
+                        and st.targets[0].attr == 'spawn' and isinstance(st.value, ast.Name):
+                    spawn_alias[ast.unparse(st.targets[0])] = (st.value.id, st.lineno)
             for node in ast.walk(fn):
                 # ---- Entity._keys writers
                 if isinstance(node, (ast.Assign, ast.AugAssign, ast.AnnAssign, ast.Delete)):
@@ -464,6 +471,8 @@ def translate() -> tuple[str, dict]:
                             ent = '?'
                             if len(node.args) == 1 and isinstance(node.args[0], (ast.Name, ast.Attribute)):
                                 ent = ast.unparse(node.args[0])
+                                if ent in spawn_alias and node.lineno > spawn_alias[ent][1]:
+                                    ent = spawn_alias[ent][0]
                             key_sources.append((qual, ix, True, _key_source(recv.slice, fn), ent,
                                                 _branch(_guard_tests(fn, node)) if cls == 'Entity' else ''))
                         elif meth in ('discard', 'remove', 'clear', 'update', 'pop', 'difference_update',
